@@ -204,7 +204,7 @@ def b64_text_kind(t):
 @section
 def sec_base64(cx):
     chk = cx.chk
-    data = gen_bytes(cx, cx.n(400, 12000))
+    data = gen_bytes(cx, cx.n(250, 12000))
     # ---- encode: model correspondence + independent reader (python base64, strict)
     resp = vlib.yqh_parallel([{"op": "c14_enc", "fmt": "base64", "node": S(s)} for s in data])
     cases, inputs = [], []
@@ -307,7 +307,7 @@ URI_IMPORTS = "From YQ Require Import Base.Str Model.Uri."
 def sec_uri(cx):
     chk = cx.chk
     rng = cx.rng
-    data = gen_bytes(cx, cx.n(400, 12000))
+    data = gen_bytes(cx, cx.n(250, 12000))
     resp = vlib.yqh_parallel([{"op": "c14_enc", "fmt": "uri", "node": S(s)} for s in data])
     cases, inputs = [], []
     for s, r in zip(data, resp):
